@@ -462,7 +462,7 @@ class Fn:
         return out
 
     # ------------------------------------------------------------------ switches
-    def switch_info(self, S):
+    def switch_info(self, S, _hops=0):
         """Describe what switch S tests.
         -> dict(kind='discr', ty, vars{val:name}, of=place) | dict(kind='call', callee, call)
            | dict(kind='bin', op, a, b) | dict(kind='place', ...) | dict(kind='other')"""
@@ -516,6 +516,19 @@ class Fn:
             a = rv["a"]
             p2 = a.get("copy") or a.get("move") if isinstance(a, dict) else None
             if p2 is not None:
+                # a condition that was given a name first (`let in_frame = frame.contains_ptr(p); if in_frame {..}`): a local
+                # with one assignment is what it was assigned - the test is that call / comparison
+                if not p2["p"] and _hops < 3:
+                    d2 = self.whole_defs(p2["l"])
+                    if len(d2) == 1 and (d2[0][1] == "t" or d2[0][2]["rv"]["k"] in ("bin", "un", "discr")) and "bool" in self.locals[p2["l"]]["ty"]:
+                        b2, k2, s2 = d2[0]
+                        if k2 == "t":
+                            return {"kind": "call", "callee": norm(s2.get("res") or s2.get("callee")), "call": s2, "block": b2, "named": self.local_name(p2["l"])}
+                        rv2 = s2["rv"]
+                        if rv2["k"] == "bin":
+                            return {"kind": "bin", "op": rv2["op"], "a": rv2["a"], "b": rv2["b"], "block": b2, "idx": k2, "named": self.local_name(p2["l"])}
+                        if rv2["k"] == "un":
+                            return {"kind": "un", "op": rv2["op"], "a": rv2["a"], "block": b2, "idx": k2, "named": self.local_name(p2["l"])}
                 return {"kind": "place", "place": p2, "ty": self.locals[p2["l"]]["ty"], "str": self.place_str(p2), "block": bi}
         return {"kind": "other", "rv": rv}
 
@@ -751,6 +764,8 @@ class Program:
                 self.fns[fn.raw_id] = fn
             else:
                 self.fns[fn.id] = fn
+        for fn in self.fns.values():
+            fn.prog = self
         self.adts = {norm(a["id"]): a for a in doc.get("adts", [])}
         self.consts = {norm(c["id"]): c for c in doc.get("consts", [])}
         self.statics = doc.get("statics", [])
